@@ -96,7 +96,7 @@ def single(pdk, prim, params, **kw):
 
 
 W1, L1, W2 = ["p", "1.5", "MICRO"], ["p", "0.5", "MICRO"], ["p", "2", "MICRO"]
-SIZES = [dict(), dict(w=W1, l=L1), dict(w=W2), dict(l=["l", "lx"])]
+SIZES = [dict(), dict(w=W1, l=L1), dict(w=W2), dict(l=["l", "lx"]), dict(w=["l", "w0 + dw"], l=["l", "(lx - dl) * 2"])]
 SIZES_NUM = [dict(), dict(w=W1, l=L1), dict(w=W2)]
 
 
